@@ -458,6 +458,36 @@ func c02r5(r *R) {
 			}
 		}
 	})
+	// the same rendering spelled out: four WriteByte calls, one per nibble from the most significant down, each indexing
+	// the lower-case hex digit string
+	var wb []ssa.Instruction
+	eachInstr(ju, func(i ssa.Instruction) {
+		if call, ok := i.(*ssa.Call); ok {
+			if n := calleeName(&call.Call); n == "(*bytes.Buffer).WriteByte" || n == "(*strings.Builder).WriteByte" {
+				wb = append(wb, i)
+			}
+		}
+	})
+	if nfmt == 0 && len(wb) == 4 {
+		el := "p0[" + rngIdx + "]"
+		const hexd = `"0123456789abcdef"`
+		want := []string{hexd + "[(" + el + " >> 12)]", hexd + "[" + andStr("15", "("+el+" >> 8)") + "]", hexd + "[" + andStr("15", "("+el+" >> 4)") + "]", hexd + "[" + andStr("15", el) + "]"}
+		okAll := true
+		for k, i := range wb {
+			got := c.Expr(callOf(i).Args[1])
+			if !o3.AtI(i).Check(got == want[k], "hex digit %d of an element is %s, want %s", k, got, want[k]) {
+				okAll = false
+			}
+			o3.Check(i.Block() == wb[0].Block() && c.Expr(callOf(i).Args[0]) == c.Expr(callOf(wb[0]).Args[0]), "the four hex digits of an element are not written together to one buffer")
+			if k > 0 {
+				o3.Check(instrDominates(wb[k-1], i), "hex digits are written out of order")
+			}
+		}
+		o3.Check(onlyGuards(c, wb[0].Block(), "+("+rngIdx+" < builtin.len(p0))") == "", "an element is rendered only under %v", c.guardStrs(wb[0].Block()))
+		if okAll {
+			nfmt = 1
+		}
+	}
 	o3.Check(nfmt == 1, "joinUint16 has %d format sites", nfmt)
 	// separators and count formats (typed AST constants / small String methods)
 	o4 := r.Ob("C02.R5", "constants")
